@@ -162,11 +162,78 @@ def ob_spheregroup(n, nchunks):
                       max_paths=400000, max_seconds=1700)
 
 
+def ob_chain(npts, labelling):
+    """one long group spanning many chunks: points on a path (consecutive points linked, everything
+    else unlinked), every chunk holds one consecutive pair (as the margin invariant requires), plus one
+    isolated point in a chunk of its own.  The ORDER in which the chunks are visited - i.e. the order
+    in which partial groups are created and merged - is a symbolic permutation."""
+    def fn(ctx):
+        import pydl.pydlutils.spheregroup as sg
+        n = npts + 1                       # + decoy singleton
+        order_on_path = list(labelling)    # path position -> input index
+        D = {}
+        L = ctx.real('L')
+        ctx.add(zt(L) > 0)
+        for i in range(n):
+            for j in range(i + 1, n):
+                D[(i, j)] = D[(j, i)] = ctx.real('d%d_%d' % (i, j))
+                ctx.add(zt(D[(i, j)]) >= 0)
+        pos = {idx: k for k, idx in enumerate(order_on_path)}
+        for i in range(n):
+            for j in range(i + 1, n):
+                adjacent = i in pos and j in pos and abs(pos[i] - pos[j]) == 1
+                ctx.add(zt(D[(i, j)]) <= zt(L) if adjacent else zt(D[(i, j)]) > zt(L))
+        pairs = [(order_on_path[k], order_on_path[k + 1]) for k in range(npts - 1)]
+        decoy = [i for i in range(n) if i not in pos][0]
+        nch = len(pairs) + 1
+        # symbolic visiting order of the chunks
+        slots = []
+        remaining = list(range(nch))
+        for k in range(nch - 1):
+            c = int(ctx.int('slot%d' % k, 0, len(remaining) - 1))
+            slots.append(remaining.pop(c))
+        slots.append(remaining[0])
+        members = [sorted(pairs[c]) if c < len(pairs) else [decoy] for c in slots]
+        d = {'fn': 'chain', 'npts': npts, 'labelling': list(labelling), 'slots': slots}
+        ctx.detail = d
+
+        class StubChunks(object):
+            friendsoffriends = sg.chunks.friendsoffriends
+            chunkfriendsoffriends = sg.chunks.chunkfriendsoffriends
+
+            def __init__(self, ra, dec, minSize):
+                self.nDec = 1
+                self.nRa = [nch]
+                self.chunkList = [[list(m) for m in members]]
+
+            def assign(self, ra, dec, marginSize):
+                pass
+
+        def gcirc(ra1, dec1, ra2, dec2, units=2):
+            i, j = int(ra1), int(ra2)
+            return R(0) if i == j else D[(i, j)]
+        saved = (sg.chunks, sg.gcirc)
+        sg.chunks, sg.gcirc = StubChunks, gcirc
+        symnp.TRANSCENDENTAL_HOOKS['deg2rad'] = lambda x: x
+        try:
+            got = sg.spheregroup(np.arange(n, dtype=float), np.zeros(n), L)
+        finally:
+            sg.chunks, sg.gcirc = saved
+            symnp.TRANSCENDENTAL_HOOKS.pop('deg2rad', None)
+        linked = lambda i, j: i in pos and j in pos and abs(pos[i] - pos[j]) == 1
+        exp = _expected(n, linked)
+        _check_partition(ctx, d, n, got, exp, 'spheregroup (chain over %d chunks)' % nch)
+    return Obligation('spheregroup chain npts=%d labelling=%s' % (npts, ''.join(map(str, labelling))), fn,
+                      bounds='a %d-point chain over %d chunks, every visiting order of the chunks' % (npts, npts), max_paths=400000, max_seconds=1700)
+
+
 def obligations(tier, seed):
     if tier == 'quick':
-        return [ob_groups(2), ob_groups(3), ob_groups(4), ob_groups(5), ob_spheregroup(2, 2), ob_spheregroup(3, 2)]
+        return [ob_groups(2), ob_groups(3), ob_groups(4), ob_groups(5), ob_spheregroup(2, 2), ob_spheregroup(3, 2),
+                ob_chain(5, (0, 1, 2, 3, 4)), ob_chain(6, (5, 0, 4, 1, 3, 6))]
     return [ob_groups(n) for n in (2, 3, 4, 5, 6)] + [ob_spheregroup(2, 2), ob_spheregroup(3, 2), ob_spheregroup(3, 3),
-                                                     ob_spheregroup(4, 2)]
+                                                     ob_spheregroup(4, 2), ob_chain(5, (0, 1, 2, 3, 4)), ob_chain(6, (5, 0, 4, 1, 3, 6)),
+                                                     ob_chain(6, (0, 1, 2, 3, 4, 5)), ob_chain(7, (3, 0, 6, 1, 5, 2, 7)), ob_chain(6, (2, 6, 0, 5, 1, 4))]
 
 
 # ------------------------------------------------------------------ replay
@@ -188,6 +255,39 @@ def replay(rec):
             D[i, j] = D[j, i] = _f(inp['d%d_%d' % (i, j)])
     linked = lambda i, j: D[i, j] <= L
     exp = _expected(n, linked)
+    if d['fn'] == 'chain':
+        npts, labelling, slots = d['npts'], d['labelling'], d['slots']
+        n = npts + 1
+        pos = {idx: k for k, idx in enumerate(labelling)}
+        adj = lambda i, j: i in pos and j in pos and abs(pos[i] - pos[j]) == 1
+        Dm = np.array([[0.0 if i == j else (0.5 if adj(i, j) else 2.0) for j in range(n)] for i in range(n)])
+        pairs = [(labelling[k], labelling[k + 1]) for k in range(npts - 1)]
+        decoy = [i for i in range(n) if i not in pos][0]
+        members = [sorted(pairs[c]) if c < len(pairs) else [decoy] for c in slots]
+
+        class StubChunks2(object):
+            friendsoffriends = sg.chunks.friendsoffriends
+
+            def chunkfriendsoffriends(self, ra, dec, chunkList, linkSep):
+                x = np.vstack((ra[chunkList], dec[chunkList]))
+                return sg.groups(x, linkSep, lambda x1, x2: Dm[int(x1[0]), int(x2[0])])
+
+            def __init__(self, ra, dec, minSize):
+                self.nDec = 1
+                self.nRa = [len(members)]
+                self.chunkList = [[list(m) for m in members]]
+
+            def assign(self, ra, dec, marginSize):
+                pass
+        saved = sg.chunks
+        sg.chunks = StubChunks2
+        try:
+            got = sg.spheregroup(np.arange(n, dtype=float), np.zeros(n), 1.0)
+        finally:
+            sg.chunks = saved
+        exp = _expected(n, adj)
+        ing, mult, first, nxt = [list(map(int, np.asarray(a).tolist())) for a in got]
+        return [ing, mult, first, nxt] != [exp[0], exp[1], exp[2], exp[3]]
     if d['fn'] == 'groups':
         g = sg.groups(np.arange(n).reshape(1, n), L, lambda x1, x2: D[int(x1[0]), int(x2[0])])
         got = (g.inGroup, g.multGroup, g.firstGroup, g.nextGroup)
